@@ -70,8 +70,39 @@ package vuego
 //@   pure
 //@   ensures C01.text.sniff: r == containsAny(data, "<>&\"'")
 
+//@ spec func firstContentIdx(as []html.Attribute, k int) int decreases len(as) - k {
+//@   (k < 0 || k >= len(as)) ? 0 - 1 : ((as[k].Key == "data-v-html-content" || as[k].Key == "data-v-text-content") ? k : firstContentIdx(as, k + 1)) }
+//@ lemma fciStep(as []html.Attribute, k int)
+//@   requires 0 <= k && k < len(as)
+//@   ensures C01.content.unfold: firstContentIdx(as, k) == ((as[k].Key == "data-v-html-content" || as[k].Key == "data-v-text-content") ? k : firstContentIdx(as, k + 1))
+//@ lemma fciEnd(as []html.Attribute, k int)
+//@   requires k >= len(as)
+//@   ensures C01.content.end: firstContentIdx(as, k) == 0 - 1
+//@ spec func noInternalContent(n *html.Node) bool {
+//@   firstContentIdx(n.Attr, 0) < 0 || n.Attr[firstContentIdx(n.Attr, 0)].Val == "" }
+//@ spec func voidTag(t string) bool { t == "area" || t == "base" || t == "br" || t == "col" || t == "embed" || t == "hr" || t == "img" ||
+//@   t == "input" || t == "link" || t == "meta" || t == "source" || t == "track" || t == "wbr" }
+//@ spec func plainElement(n *html.Node) bool { n.Type == html.ElementNode && n.Data != "template" && noInternalContent(n) }
+
 //@ func renderNodeWithContext(ctx, w, node, indent) (err)
 //@   use escIdentity(node.Data)
+//@   use escIdentity(node.FirstChild.Data)
+//@   ensures C01+C02.elem.text.exact: plainElement(node) && node.FirstChild != nil && node.FirstChild.NextSibling == nil &&
+//@     node.FirstChild.Type == html.TextNode && node.Data != "script" && node.Data != "style" && err == nil ==>
+//@     out(w) == old(out(w)) + (spaces(indent) + "<" + node.Data + specAttrs(node.Attr, len(node.Attr)) + ">") + Esc(node.FirstChild.Data) + ("</" + node.Data + ">\n")
+//@   ensures C01+C02.elem.rawtext.exact: plainElement(node) && node.FirstChild != nil && node.FirstChild.NextSibling == nil &&
+//@     node.FirstChild.Type == html.TextNode && (node.Data == "script" || node.Data == "style") && err == nil ==>
+//@     out(w) == old(out(w)) + (spaces(indent) + "<" + node.Data + specAttrs(node.Attr, len(node.Attr)) + ">") + node.FirstChild.Data + ("</" + node.Data + ">\n")
+//@   ensures C02.elem.empty.exact: plainElement(node) && node.FirstChild == nil && !voidTag(node.Data) && err == nil ==>
+//@     out(w) == old(out(w)) + spaces(indent) + "<" + node.Data + specAttrs(node.Attr, len(node.Attr)) + "></" + node.Data + ">\n"
+//@   ensures C02.void.noendtag: plainElement(node) && node.FirstChild == nil && voidTag(node.Data) && err == nil ==>
+//@     out(w) == old(out(w)) + spaces(indent) + "<" + node.Data + specAttrs(node.Attr, len(node.Attr)) + ">\n"
+//@   loop 0 invariant C02.children.count: (childCount == 0 && c == firstChild) ||
+//@     (childCount == 1 && firstChild != nil && c == firstChild.NextSibling) ||
+//@     (childCount >= 2 && firstChild != nil && firstChild.NextSibling != nil)
+//@   loop 1 use fciStep(node.Attr, $i), fciEnd(node.Attr, $i)
+//@   loop 1 invariant bounds: 0 <= $i && $i <= len(node.Attr)
+//@   loop 1 invariant C01.content.scan: vhtmlContent == "" && vtextContent == "" && firstContentIdx(node.Attr, 0) == firstContentIdx(node.Attr, $i)
 //@   modifies out(w), failed(w)
 //@   ensures C12.prefix: hasPrefix(out(w), old(out(w)))
 //@   ensures C12.reported: failed(w) && !old(failed(w)) ==> err != nil
